@@ -9,7 +9,7 @@ From Coq Require Import List NArith.
 Local Open Scope string_scope.
 Local Open Scope list_scope.
 Import ListNotations.
-From UV Require Import Py.Val Py.Str Py.UrlLib Ural.Utils Ural.Canonicalize Proofs.CanonFacts.
+From UV Require Import Py.Val Py.Str Py.UrlLib Py.UrlLibFacts Ural.Utils Ural.Quote Ural.Canonicalize Proofs.CanonFacts.
 
 (* the effective port (explicit, else the scheme's default) is never changed, for any scheme and port *)
 Theorem C01_effective_port : forall sch p, effective_port sch (canon_port sch p) = effective_port sch p.
@@ -20,6 +20,34 @@ Theorem C01_unsplit : forall e u dp q sf,
   canonicalize_url e u dp q sf =
   match canonicalize_split e u dp q sf with Ok r => Ok (urlunsplit r) | Exc x => Exc x end.
 Proof. exact canonicalize_unsplit. Qed.
+
+(* canonicalize_url raises nothing but the standard parser's ValueError (urlsplit, or the port) -- and the model's
+   unanswered oracle question: "for every URL string that parses" it returns *)
+Theorem C01_exceptions : forall e u dp q sf x, canonicalize_url e u dp q sf = Exc x -> url_exn x.
+Proof. exact canonicalize_exn. Qed.
+
+(* where each component of the result comes from: the scheme is the parsed one; the netloc is rebuilt from the
+   (unquoted) userinfo, the idna-decoded lower-cased host and the port minus the scheme's own default (C01_effective_port);
+   the query keeps its items in order, each one unquoted (and re-quoted in quoted mode); the fragment is dropped exactly
+   when strip_fragment is set.  What unquoting / quoting may do to a component is C14. *)
+Theorem C01_components : forall e u dp q sf r,
+  canonicalize_split e u dp q sf = Ok r ->
+  exists sp prt host,
+    urlsplit e (ensure_protocol (clean_url u) dp) = Ok sp /\ port sp = Ok prt /\
+    (match hostname sp with
+     | Some (c :: h) => exists d, decode_punycode_hostname e (c :: h) = Ok d /\ host = Some (lower d)
+     | x => host = x
+     end) /\
+    scheme r = scheme sp /\
+    netloc r = unsplit_netloc (canon_item q safely_unquote_auth_item (username sp))
+                              (canon_item q safely_unquote_auth_item (password sp)) host (canon_port (scheme sp) prt) /\
+    query r = safe_serialize_qsl ((if q then safely_quote_qsl else fun l => l) (safely_unquote_qsl (safe_qsl_iter (query sp)))) /\
+    (sf = true -> fragment r = []) /\
+    (sf = false -> fragment r = match fragment sp with
+                                | [] => []
+                                | f => if q then safely_quote (safely_unquote_fragment f) else safely_unquote_fragment f
+                                end).
+Proof. exact canonicalize_components. Qed.
 
 (* the historical witnesses on the (fixed) model *)
 Example C01_examples :
@@ -32,3 +60,5 @@ Proof. vm_compute. repeat split. Qed.
 
 Print Assumptions C01_effective_port.
 Print Assumptions C01_unsplit.
+Print Assumptions C01_exceptions.
+Print Assumptions C01_components.
